@@ -68,3 +68,38 @@ var _ time.Time // lemmas below name package time
 //@   requires !ti.Before(gen) && !gen.Add(86400000000000).Before(ti)
 //@   requires !t.Before(ti) && !t.After(ti.Add(172800000000000))
 //@   ensures !t.Before(gen) && !t.After(gen.Add(259200000000000))
+
+// ---- server cookies: b is arbitrary (it comes off the wire before any authentication) ----
+
+//@ func (*ServerCookie).Decode
+//@   requires c != nil
+//@   entry n := len(b)
+//@   modifies *c
+//@   loop 0 invariant 0 <= pos
+//@   loop 0 decreases n-pos
+
+//@ func (*EncryptedServerCookie).Decode
+//@   requires c != nil
+//@   entry n := len(b)
+//@   modifies *c
+//@   loop 0 invariant 0 <= pos
+//@   loop 0 decreases n-pos
+
+//@ func (*EncryptedServerCookie).Decrypt
+//@   requires c != nil
+//@   allocates
+
+//@ func (*ServerCookie).Encode
+//@   requires c != nil && len(c.S2C) <= 65535 && len(c.C2S) <= 65535
+//@   allocates
+//@   ensures length: len(result) == 14+len(c.S2C)+len(c.C2S)
+
+//@ func (*EncryptedServerCookie).Encode
+//@   requires c != nil && len(c.Nonce) <= 65535 && len(c.Ciphertext) <= 65535
+//@   allocates
+//@   ensures length: len(result) == 14+len(c.Nonce)+len(c.Ciphertext)
+
+//@ func (*ServerCookie).EncryptWithNonce
+//@   requires c != nil && len(c.S2C) <= 65535 && len(c.C2S) <= 65535
+//@   allocates
+//@   ensures shape: result1 == nil ==> len(result0.Nonce) == 16 && len(result0.Ciphertext) == 30+len(c.S2C)+len(c.C2S) && mathint(result0.ID) == floormod(mathint(keyid), 65536)
